@@ -11,6 +11,7 @@ package main
 import (
 	"encoding/json"
 	"fmt"
+	"net"
 	"os"
 	"sort"
 	"strconv"
@@ -27,11 +28,19 @@ type sel struct {
 	D    int    `json:"d"`
 }
 
+// odesc is one EDNS0 option of the option universe of Gen_Truncate: kind and two parameters (see mkOption).
+type odesc struct {
+	K string `json:"k"`
+	A int    `json:"a"`
+	B int    `json:"b"`
+}
+
 type vcase struct {
 	An       []int `json:"an"`
 	Ns       []int `json:"ns"`
 	Ar       []int `json:"ar"`
 	Opt      int   `json:"opt"`
+	OO       []odesc `json:"oo,omitempty"` // opt = 4: the options of the OPT record (Gen_Truncate, mode "opts")
 	OptPos   int   `json:"optpos"`
 	TC       bool  `json:"tc"`
 	Compress bool  `json:"compress"`
@@ -98,6 +107,71 @@ func shape(id, i int) dns.RR {
 	return nil
 }
 
+// mkOption builds the EDNS0 option a descriptor of the option universe stands for (spec/Gen_Truncate.tla lists the
+// meaning of the parameters per kind).
+func mkOption(d odesc) dns.EDNS0 {
+	hexOf := func(n int) string { return strings.Repeat("a7", n) }
+	algs := func(n int) []uint8 { return []uint8{8, 13, 15, 16, 5, 7, 10}[:n] }
+	switch d.K {
+	case "subnet":
+		e := &dns.EDNS0_SUBNET{Code: dns.EDNS0SUBNET, Family: uint16(d.A), SourceNetmask: uint8(d.B), SourceScope: uint8(d.B)}
+		switch d.A {
+		case 1:
+			e.Address = net.IPv4(198, 51, 100, 77).To4()
+		case 2:
+			e.Address = net.ParseIP("2001:db8:1234:5678:9abc:def0:1357:9bdf")
+		}
+		return e
+	case "nsid":
+		return &dns.EDNS0_NSID{Code: dns.EDNS0NSID, Nsid: hexOf(d.A)}
+	case "cookie":
+		return &dns.EDNS0_COOKIE{Code: dns.EDNS0COOKIE, Cookie: hexOf(d.A)}
+	case "ul":
+		return &dns.EDNS0_UL{Code: dns.EDNS0UL, Lease: uint32(d.A), KeyLease: uint32(d.B)}
+	case "llq":
+		return &dns.EDNS0_LLQ{Code: dns.EDNS0LLQ, Version: 1, Opcode: uint16(d.A), Id: 0x0102030405060708, LeaseLife: uint32(d.B)}
+	case "dau":
+		return &dns.EDNS0_DAU{Code: dns.EDNS0DAU, AlgCode: algs(d.A)}
+	case "dhu":
+		return &dns.EDNS0_DHU{Code: dns.EDNS0DHU, AlgCode: algs(d.A)}
+	case "n3u":
+		return &dns.EDNS0_N3U{Code: dns.EDNS0N3U, AlgCode: algs(d.A)}
+	case "expire":
+		return &dns.EDNS0_EXPIRE{Code: dns.EDNS0EXPIRE, Expire: uint32(d.A), Empty: d.B == 1}
+	case "keepalive":
+		return &dns.EDNS0_TCP_KEEPALIVE{Code: dns.EDNS0TCPKEEPALIVE, Timeout: uint16(d.A)}
+	case "padding":
+		return &dns.EDNS0_PADDING{Padding: make([]byte, d.A)}
+	case "ede":
+		return &dns.EDNS0_EDE{InfoCode: uint16(d.A), ExtraText: filler[:d.B]}
+	case "esu":
+		return &dns.EDNS0_ESU{Code: dns.EDNS0ESU, Uri: ("sip:user@host.example.org;transport=tcp" + filler)[:d.A]}
+	case "local":
+		return &dns.EDNS0_LOCAL{Code: uint16(d.A), Data: make([]byte, d.B)}
+	case "reporting":
+		return &dns.EDNS0_REPORTING{Code: dns.EDNS0REPORTING, AgentDomain: []string{".", "agent.example.org.", "agent.example.org"}[d.A]}
+	case "zoneversion":
+		return &dns.EDNS0_ZONEVERSION{Code: dns.EDNS0ZONEVERSION, LabelCount: uint8(d.A), Type: 0, Version: filler[:d.B]}
+	}
+	hx.Die("option kind %q", d.K)
+	return nil
+}
+
+func optWith(oo []odesc) *dns.OPT {
+	o := opt(1)
+	for _, d := range oo {
+		o.Option = append(o.Option, mkOption(d))
+	}
+	return o
+}
+
+func optOf(c *vcase) *dns.OPT {
+	if c.Opt == 4 {
+		return optWith(c.OO)
+	}
+	return opt(c.Opt)
+}
+
 func opt(kind int) *dns.OPT {
 	o := new(dns.OPT)
 	o.Hdr.Name = "."
@@ -127,12 +201,12 @@ func build(c *vcase) *dns.Msg {
 	}
 	for i, s := range c.Ar {
 		if c.Opt != 0 && c.OptPos == i {
-			m.Extra = append(m.Extra, opt(c.Opt))
+			m.Extra = append(m.Extra, optOf(c))
 		}
 		m.Extra = append(m.Extra, shape(s, 20+i))
 	}
 	if c.Opt != 0 && c.OptPos >= len(c.Ar) {
-		m.Extra = append(m.Extra, opt(c.Opt))
+		m.Extra = append(m.Extra, optOf(c))
 	}
 	return m
 }
@@ -302,6 +376,8 @@ func measure(m *dns.Msg, size int) Facts {
 	}
 	if f.LenFit <= lim && (f.AAn < f.NAn || f.ANs < f.NNs || f.AAr < f.NAr) {
 		f.Over = overCause(orig)
+	} else if nx != nil && f.Plain && f.LenNext <= lim { // the first dropped record would have fitted
+		f.Over = overCause(nx)
 	}
 	return f
 }
@@ -343,6 +419,9 @@ func overCause(m *dns.Msg) string {
 			set[dns.TypeToString[r.Header().Rrtype]] = true
 		}
 		if len(set) == 0 {
+			if o, ok := all[i].(*dns.OPT); ok { // name the option kinds too: OPT(SUBNET)
+				return "OPT" + overOptions(o)
+			}
 			return dns.TypeToString[all[i].Header().Rrtype]
 		}
 		var names []string
@@ -353,6 +432,29 @@ func overCause(m *dns.Msg) string {
 		return strings.Join(names, "+") + ">" + dns.TypeToString[all[i].Header().Rrtype]
 	}
 	return ""
+}
+
+// overOptions names the kinds of the options of o for which Len() of an OPT holding that option alone exceeds what
+// Pack writes for it, e.g. "(SUBNET)"; "" when no single option accounts for the excess.  Finding key only.
+func overOptions(o *dns.OPT) string {
+	set := map[string]bool{}
+	for _, e := range o.Option {
+		one := &dns.OPT{Hdr: o.Hdr, Option: []dns.EDNS0{e}}
+		buf := make([]byte, 1<<17)
+		off, err := dns.PackRR(one, buf, 0, nil, false)
+		if err == nil && dns.Len(one) > off {
+			set[strings.TrimPrefix(fmt.Sprintf("%T", e), "*dns.EDNS0_")] = true
+		}
+	}
+	if len(set) == 0 {
+		return ""
+	}
+	var names []string
+	for n := range set {
+		names = append(names, n)
+	}
+	sort.Strings(names)
+	return "(" + strings.Join(names, "+") + ")"
 }
 
 func resolve(c *vcase, m *dns.Msg) int {
@@ -406,7 +508,7 @@ func main() {
 			w.Emit(f)
 			sum.Evaluations++
 			if f.AAn < f.NAn || f.ANs < f.NNs || f.AAr < f.NAr {
-				seen[fmt.Sprint(c.An, c.Ns, c.Ar, c.Opt, c.OptPos, size)] = true // non-trivial: something was cut
+				seen[fmt.Sprint(c.An, c.Ns, c.Ar, c.Opt, c.OO, c.OptPos, size)] = true // non-trivial: something was cut
 			}
 			if i%4001 == 0 {
 				sum.Sample(map[string]interface{}{"case": c, "size": size, "after": []int{f.AAn, f.ANs, f.AAr}, "tc": f.TcAfter, "lenAfter": f.LenAfter})
